@@ -28,14 +28,14 @@ CLAIMED['C02'] = {
     'technique': 'Coq finite-table proof + tables regenerated from running code (vm_compute obligations) + end-to-end differential runs',
 }
 CLAIMED['C16'] = {
-    'text': 'proof: over the Gallina model of the suite reader/enumerator/executor and both reporters: a read error gives '
-            'INVALID_SUITE/3 with no case processed; processing order = sub-suites first, listing order; each listing '
-            'processed once; globs sorted; progress OK/0 iff all cases PASS/SKIPPED/XFAIL; JUnit tests/failures+errors/'
-            'child elements; reporters agree (all closed under the global context); pre-fix JUnit classification refuted. '
-            'Regenerated reporter tables (C16_gen_reporters_match) + ~500 end-to-end suite runs per quick run tie model to code; '
-            'validity of a hierarchy is additionally checked against a declarative unfolding spec on every run.',
-    'note': 'trusted: Coq kernel + vm_compute; harness evaluates stat/glob to build the model file system; the equivalence '
-            'reader-accepts <-> declarative validity is checked per generated hierarchy by vm_compute, not yet proved in general.',
+    'text': 'proof: over the Gallina model of the suite reader/enumerator/executor and both reporters, for ALL file systems: the reader accepts a hierarchy iff it is '
+            'declaratively valid (every referenced file accessible and parsable, no suite file twice in the unfolding of the reference graph), the accepted hierarchy is that '
+            'unfolding, the reader never runs out of fuel; a read error gives INVALID_SUITE/3 with no case processed; processing order = sub-suites first, listing order; each '
+            'listing processed once; globs sorted; progress OK/0 iff all cases PASS/SKIPPED/XFAIL; JUnit tests/failures+errors/child elements; reporters agree; the check '
+            'predicate holds on the model and correspondence implies the property (all closed under the global context); pre-fix JUnit classification refuted. Regenerated '
+            'reporter tables (C16_gen_reporters_match) + ~500 end-to-end suite runs per quick run tie model to code.',
+    'note': 'trusted: Coq kernel + vm_compute; harness evaluates stat/glob (and quoting: a quoted name is literal) to build the model file system; hand-written model '
+            'Model/Suite.v checked against the running code by correspondence, not verified.',
     'technique': CORR + ' + regenerated reporter tables',
 }
 NOT_CLAIMED = {}
@@ -212,11 +212,11 @@ CLAIMED['C10'] = {
     'technique': CORR + ' (probe programs; recording ProcessExecutor)',
 }
 CLAIMED['C07'] = {
-    'text': 'proof (partial: the location of instruction-argument error reports is checked, not proved, when an instruction parser raises after consuming input; the '
-            'phase-order theorem assumes self-contained blocks, and its necessity is shown by a refuted variant): ParseSource line-number invariant over every operation '
+    'text': 'proof (the phase-order theorem assumes self-contained blocks; the necessity of that assumption is shown by a refuted variant): ParseSource line-number invariant over every operation '
             'sequence; the document reader (default section, headers, comment/blank grouping, multi-line instructions as oracle extents, inclusion with the chain of including '
             'files) = the declarative reading "elements by governing header, in file order"; phase order irrelevant; source locations exact (first line, consumed lines, '
-            'inclusion chain); include is a splice; unknown section / inclusion cycle is an error; the reader terminates. 14 theorems closed under the global context.',
+            'inclusion chain); error locations exact also when a parser raises after consuming input (directives, multi-line instructions); a malformed `including` is '
+            'reported at its own line; include is a splice; unknown section / inclusion cycle is an error; the reader terminates. 15 theorems closed under the global context.',
     'note': 'Hand-written model of parse_source.py and the document reader (document_parser._Impl/parse_file/_include_files/_add_raw_doc, element parsers, act parser, inclusion '
             'directive parser) over real line texts; modelled, not verified. Instruction parsers, path resolution and file contents are explicit oracles (Section variables; tables '
             'computed from the running code per case). ASCII only. Tie: ~8400 (quick) / ~92700 (thorough) cases incl. exhaustive small documents, inclusion graphs with '
